@@ -68,8 +68,8 @@ def oracle_C01(scen, m, o, reporter):
         if (st == "1") != should_fail:
             return f"verdict {st} but truth (p f s e) = {t}"
         # main() returns what the run returned: that is the verdict the caller of the test program sees
-        if o.rc is not None and o.rc != int(st) and not o.timeout:
-            return f"the run returned {st} and main() returned that, but the process ended with exit status {o.rc} (truth (p f s e) = {t})"
+        if o.rc is not None and (o.rc == 0) != (st == "0") and not o.timeout:
+            return f"the run returned {o.returned} and main() returned that, but the process ended with exit status {o.rc} (truth (p f s e) = {t})"
     else:
         # the run did not return: the process ended from inside test code; it must not look like success
         if st in ("exit0",) :
